@@ -1128,7 +1128,7 @@ func junkCands() [][]string {
 		{"branch", "a/b"}, {"branch", ".."}, {"branch", "../../HEAD"}, {"switch", "-c", "x/y"}, {"branch", "-r", "../x"}, {"branch", "-d", "../x"},
 		{"frobnicate"}, {"status", "extra"}, {"reflog", "extra"},
 		{"switch", "-c", "a: b"}, {"branch", "x: y"}, {"branch", "-r", "n: m"}, {"switch", "-c", "sp ace"}, {"branch", "tab\tname"}, {"switch", "-c", "ref: refs/heads/x"},
-		{"switch", "a: b"}, {"switch", "sp ace"}, {"branch", "-d", "x: y"}, {"branch", "ünï"}, {"switch", "-c", "(paren"}, {"branch", "nl\nname"},
+		{"switch", "a: b"}, {"switch", "sp ace"}, {"branch", "-d", "x: y"}, {"branch", "ünï"}, {"switch", "-c", "(paren"}, {"branch", "nl\nname"}, {"switch", "-c", "\nlead"}, {"branch", "-r", "\nlead2"}, {"switch", "-c", "\n"}, {"branch", "\nlead3"}, {"switch", "\nlead3"},
 		// ids of every short length, one too long; empty arguments; numbers at and beyond the limits
 		{"update-ref", "refs/heads/main", ""}, {"update-ref", "refs/heads/main", "a"}, {"update-ref", "refs/heads/main", "ab"},
 		{"update-ref", "refs/heads/main", strings.Repeat("a", 39)}, {"update-ref", "refs/heads/main", strings.Repeat("a", 41)}, {"update-ref", "refs/heads/", strings.Repeat("a", 40)},
